@@ -482,3 +482,45 @@ func ExprString(e ast.Expr) string { return types.ExprString(e) }
 
 // Errorf is fmt.Errorf (kept to avoid importing fmt in tiny rule files).
 func Errorf(format string, args ...any) error { return fmt.Errorf(format, args...) }
+
+// ExprStringNode renders an arbitrary node compactly (expressions via types.ExprString, statements by kind).
+func ExprStringNode(n ast.Node) string {
+	if e, ok := n.(ast.Expr); ok {
+		return types.ExprString(e)
+	}
+	switch x := n.(type) {
+	case *ast.AssignStmt:
+		s := ""
+		for i, l := range x.Lhs {
+			if i > 0 {
+				s += ", "
+			}
+			s += types.ExprString(l)
+		}
+		s += " " + x.Tok.String() + " "
+		for i, r := range x.Rhs {
+			if i > 0 {
+				s += ", "
+			}
+			s += types.ExprString(r)
+		}
+		return s
+	case *ast.ExprStmt:
+		return types.ExprString(x.X)
+	case *ast.SendStmt:
+		return types.ExprString(x.Chan) + " <- " + types.ExprString(x.Value)
+	case *ast.ReturnStmt:
+		s := "return"
+		for _, r := range x.Results {
+			s += " " + types.ExprString(r)
+		}
+		return s
+	case *ast.GoStmt:
+		return "go " + types.ExprString(x.Call.Fun) + "(...)"
+	case *ast.DeferStmt:
+		return "defer " + types.ExprString(x.Call.Fun) + "(...)"
+	case *ast.IncDecStmt:
+		return types.ExprString(x.X) + x.Tok.String()
+	}
+	return fmt.Sprintf("%T", n)
+}
